@@ -22,7 +22,7 @@ func TestC16(t *testing.T) {
 		Exhaustive:  false,
 		NCases: func(tier string) int {
 			if tier == "thorough" {
-				return 3000
+				return 30000
 			}
 			return 300
 		},
